@@ -1211,6 +1211,16 @@ class Ctx:
     def _ringnf_leaf(self, g, hyps):
         from . import ringnf
 
+        if z3.is_or(g):
+            # z3's simplifier cancels common factors: c*X == c*Y becomes Or(c == 0, X == Y);
+            # proving any disjunct that is an arithmetic equality suffices
+            for d in g.children():
+                if z3.is_eq(d) and z3.is_arith(d.arg(0)) and not (z3.is_rational_value(d.arg(1)) or z3.is_int_value(d.arg(1))) and self._ringnf_leaf(d, hyps):
+                    return True
+            for d in g.children():
+                if z3.is_eq(d) and z3.is_arith(d.arg(0)) and self._ringnf_leaf(d, hyps):
+                    return True
+            return False
         eqs = ringnf.split_equalities(g)
         if not eqs:
             return False
@@ -1276,7 +1286,7 @@ class Ctx:
             if r == z3.sat:
                 return "refuted", "ite-split+z3", model, ""
             if os.environ.get("VERIF_DEBUG_RINGNF"):
-                print("SPLIT: leaf undecided at depth", depth, "goal size", len(str(g)))
+                print("SPLIT: leaf undecided at depth", depth, "goal size", len(str(g)), "kind", g.decl().name(), "head:", str(g)[:600].replace("\n", " "))
             return None
         if depth > ITE_SPLIT_DEPTH:
             return None
